@@ -228,6 +228,20 @@ def keygen_r(group, inputs, kind):
     return runexe(exe, [kind])
 
 
+def tgswdec_r(group, inputs):
+    """C03 (TGSW): whole real library, several parameter sets one after the other in one process"""
+    cpp, cfiles = full_library_sources()
+    out = os.path.join(core.RUNDIR, 'native')
+    os.makedirs(out, exist_ok=True)
+    objs = []
+    for cf in cfiles:
+        o = os.path.join(out, os.path.basename(cf) + '.o')
+        subprocess.run(['gcc', '-O2', '-c', '-I' + INC, '-o', o, cf], capture_output=True, text=True)
+        objs.append(o)
+    exe = build('tgsw_replay', cpp, extra=['-O1', '-I' + os.path.join(LIB, 'fft_processors', 'nayuki')] + objs + ['-lpthread'])
+    return runexe(exe, [])
+
+
 def blind_r(group, inputs, fft):
     src = 'lwe-bootstrapping-functions-fft.cpp' if fft else 'lwe-bootstrapping-functions.cpp'
     extra = ['-DREPLAY_SRC="%s"' % os.path.join(LIB, src)] + (['-DREPLAY_FFT'] if fft else [])
@@ -240,7 +254,19 @@ def mult_r(group, inputs, fn, N=None):
 
 
 def keyswitch_r(group, inputs, T, B, BN):
-    return linear(group, inputs, 'keyswitch', T, B, BN)
+    r = linear(group, inputs, 'keyswitch', T, B, BN)
+    if r.get('confirmed'):
+        return r
+    for n in (1025, 2049):            # a rewrite that processes the mask in chunks can be right for small n only
+        r2 = linear(group, inputs, 'keyswitch', T, B, n)
+        if r2.get('confirmed'):
+            r2['detail'] += ' [n=%d]' % n
+            return r2
+    return r
+
+
+def kscreate_r(group, inputs):
+    return linear(group, inputs, 'kscreate')
 
 
 def pairing_r(group, inputs):
@@ -248,7 +274,7 @@ def pairing_r(group, inputs):
 
 
 ROUTINES = {'numeric': numeric, 'woks': woks, 'lwe': lwe_r, 'poly': lwe_r, 'extract': lwe_r, 'decomp': decomp_r, 'tlwe': lwe_r,
-            'mult': mult_r, 'keyswitch': keyswitch_r, 'pairing': pairing_r, 'gadget': lwe_r, 'gate': gates_r, 'blind': blind_r, 'params': params_r, 'io': io_r, 'keygen': keygen_r, 'iotext': lambda g, i: io_r(g, i, 'C05text')}
+            'mult': mult_r, 'keyswitch': keyswitch_r, 'pairing': pairing_r, 'gadget': lwe_r, 'kscreate': kscreate_r, 'tgswdec': tgswdec_r, 'gate': gates_r, 'blind': blind_r, 'params': params_r, 'io': io_r, 'keygen': keygen_r, 'iotext': lambda g, i: io_r(g, i, 'C05text')}
 
 
 def run(name, group, inputs):
